@@ -539,10 +539,15 @@ Proof.
         pose proof (same_cm_pool_get stm p) as Hcm. rewrite Eg in Hcm. cbn [fst] in Hcm.
         destruct r as [s2|].
         -- destruct (Bo s2 eq_refl) as (sv2 & Hs2 & Ho2).
+           destruct (asking_self st1 s2 ty sv2 Hs2) as (sv3 & Hs3 & Ho3 & _). rewrite Ho2 in Ho3.
            eapply dequeue_case; [exact H | | | ].
-           ++ eapply dmono_trans; [exact Dm|]. eapply dmono_trans; [apply dmono_same_cm, Hcm | apply dmono_same_cm, same_cm_enqueue_out].
+           ++ eapply dmono_trans; [exact Dm|]. eapply dmono_trans; [apply dmono_same_cm, Hcm|].
+              eapply dmono_trans; [apply dmono_same_cm, same_cm_asking | apply dmono_same_cm, same_cm_enqueue_out].
            ++ intros m sl Hp. destruct (Pm m sl Hp) as [E|Hpm]; [left; exact E | right].
-              apply pext_enqueue_out. eapply pext_mono; [exact Mono | exact Hpm].
+              apply pext_enqueue_out.
+              assert (Pa : pext st1 (if N.eqb ty RspAsk then enqueue_out st1 s2 (FProbe true) else st1))
+                by (destruct (N.eqb ty RspAsk); [apply pext_enqueue_out | apply pext_refl]).
+              apply Pa. eapply pext_mono; [exact Mono | exact Hpm].
            ++ intros m sl E. inversion E; subst. right. eapply enqueue_pending; eassumption.
         -- eapply dequeue_case; [exact H | | | ].
            ++ eapply dmono_trans; [exact Dm|]. eapply dmono_trans; [apply dmono_same_cm, Hcm | apply dmono_fail_and_flush].
@@ -742,10 +747,10 @@ Proof.
 Qed.
 
 (* a redirect that names a node the proxy has no pool for completes the request with an error *)
-Theorem redirect_unknown_node st f mid addr :
+Theorem redirect_unknown_node st f mid ty addr :
   (exists m, lookup mid (msgs st) = Some m) ->
   find_pool (mark_moved st mid (frag_slot f)) addr = None ->
-  msg_done (on_moved st f mid addr) mid = true /\ forall slot, frag_done (on_moved st f mid addr) mid slot = true.
+  msg_done (on_moved st f mid ty addr) mid = true /\ forall slot, frag_done (on_moved st f mid ty addr) mid slot = true.
 Proof.
   intros (m & Hm) Hf. unfold on_moved. rewrite Hf.
   assert (Hex : exists m', lookup mid (msgs (mark_moved st mid (frag_slot f))) = Some m').
@@ -754,11 +759,11 @@ Proof.
 Qed.
 
 (* ... and so does a redirect to a node whose pool cannot give a connection *)
-Theorem redirect_no_connection st f mid addr p st1 :
+Theorem redirect_no_connection st f mid ty addr p st1 :
   (exists m, lookup mid (msgs st) = Some m) ->
   find_pool (mark_moved st mid (frag_slot f)) addr = Some p ->
   pool_get (mark_moved st mid (frag_slot f)) p = (st1, None) ->
-  msg_done (on_moved st f mid addr) mid = true.
+  msg_done (on_moved st f mid ty addr) mid = true.
 Proof.
   intros (m & Hm) Hf Hg. unfold on_moved. rewrite Hf, Hg.
   apply msg_done_fail_and_flush.
@@ -773,4 +778,37 @@ Theorem pool_get_open c pools slots evs st p st' s :
 Proof.
   intros Hrun Hg. destruct (run_both evs _ _ (init_both c pools slots) Hrun) as [HS _].
   destruct (pool_get_sinv _ _ _ _ HS Hg) as (_ & B & _). apply B. reflexivity.
+Qed.
+
+(* ---------- a node leaves the topology, or changes role (C15 / C04) ---------- *)
+(* the ticker schedules the closing of every connection of a pool whose node is no longer listed, or
+   is listed with the other role; the pool itself is dropped, or restarts without connections, in the
+   same step - no later request is given one of those connections.  When the close task runs,
+   every request with a fragment on the connection is completed (close_completes). *)
+Theorem topology_schedules_close st nodes newslots p s :
+  In p (pools st) -> In s (pp_conns p) ->
+  node_role nodes (pp_addr p) <> Some (pp_slave p) ->
+  In (TClose s) (tasks (apply_topology st nodes newslots)) /\
+  (forall q, In q (topology_pool nodes p) -> pp_conns q = []).
+Proof.
+  intros Hp Hs Hr. split.
+  - unfold apply_topology. cbn [tasks]. apply in_or_app. right. apply in_map. apply in_concat.
+    exists (topology_closing nodes p). split; [apply in_map, Hp|].
+    unfold topology_closing. destruct (node_role nodes (pp_addr p)) as [r|]; [|exact Hs].
+    destruct (Bool.eqb r (pp_slave p)) eqn:E; [|exact Hs]. apply Bool.eqb_prop in E. subst r. contradiction.
+  - intros q Hq. unfold topology_pool in Hq. destruct (node_role nodes (pp_addr p)) as [r|]; [|destruct Hq].
+    destruct (Bool.eqb r (pp_slave p)) eqn:E; destruct Hq as [<-|[]]; [|reflexivity].
+    apply Bool.eqb_prop in E. subst r. contradiction.
+Qed.
+
+(* a pool whose node is still listed with the same role is left alone *)
+Theorem topology_keeps_unchanged_pools st nodes newslots p :
+  In p (pools st) -> node_role nodes (pp_addr p) = Some (pp_slave p) ->
+  In p (pools (apply_topology st nodes newslots)) /\
+  (forall s, In s (pp_conns p) -> ~ In s (topology_closing nodes p)).
+Proof.
+  intros Hp Hr. split.
+  - unfold apply_topology. cbn [pools]. apply in_concat. exists (topology_pool nodes p). split; [apply in_map, Hp|].
+    unfold topology_pool. rewrite Hr, Bool.eqb_reflx. left; reflexivity.
+  - intros s _. unfold topology_closing. rewrite Hr, Bool.eqb_reflx. intros [].
 Qed.
